@@ -148,6 +148,14 @@ def run (args : List String) : Option String :=
       let q := (g.tileGeobox fl (jx, jy)).bbox fl
       fmtRes (fun g2 => fmtBBox ((g2.tileGeobox fl (kx, ky)).bbox fl))
         (GridSpec.fromSampleTile fl q ny' nx' jx jy fx' fy'))
+  -- bbox query with the outcome of the CRS guard (`T` same CRS, `F` foreign CRS → AssertionError)
+  | ["idxbc", m, ny, nx, rx, ry, ox, oy, fx, fy, same, l, b, r, t] => do
+    let fl ← parseMode? m
+    let g ← parseGrid? fl ny nx rx ry ox oy fx fy
+    let same ← parseBool? same
+    let q ← parseBBox? l b r t
+    pure (withGrid g fun g =>
+      s!"{fmtRes (fun (a, b, c, d) => s!"{a} {b} {c} {d}") (g.idxBoundsChecked fl tol8 same q)} {fmtRes (fmtList fmtIdx) (g.tilesChecked fl tol8 same q)}")
   -- multi-step history over one shared geobox_cache; output: result of every step, then the cache keys
   | "hist" :: m :: ny :: nx :: rx :: ry :: ox :: oy :: fx :: fy :: steps => do
     let fl ← parseMode? m
